@@ -28,12 +28,22 @@ type sqlFaults struct {
 	Fired    map[string]int
 	Log      []string
 	Latency  atomic.Int64 // simulated duration of every statement (ns); 0 = none
+	// RowsFailAfter >= 0: the result set of the next query fails after that many rows (one shot). RowsFailed
+	// tells whether it did.
+	RowsFailAfter atomic.Int64
+	RowsFailed    atomic.Bool
 }
 
-var SQLFaults = &sqlFaults{FailAt: map[int]bool{}, FailKind: map[string]int{}, Fired: map[string]int{}}
+var SQLFaults = func() *sqlFaults {
+	f := &sqlFaults{FailAt: map[int]bool{}, FailKind: map[string]int{}, Fired: map[string]int{}}
+	f.RowsFailAfter.Store(-1)
+	return f
+}()
 
 func (f *sqlFaults) Reset() {
 	f.Latency.Store(0)
+	f.RowsFailAfter.Store(-1)
+	f.RowsFailed.Store(false)
 	f.mu.Lock()
 	f.n = 0
 	f.FailAt = map[int]bool{}
@@ -135,7 +145,30 @@ func (c *simSQLConn) QueryContext(ctx context.Context, q string, args []driver.N
 	if err := SQLFaults.gate(stmtKind(q)); err != nil {
 		return nil, err
 	}
-	return c.c.QueryContext(ctx, q, args)
+	rows, err := c.c.QueryContext(ctx, q, args)
+	if k := SQLFaults.RowsFailAfter.Swap(-1); err == nil && k >= 0 {
+		// the result set of this query fails after k rows (connection lost mid-cursor)
+		return &simSQLRows{Rows: rows, left: int(k)}, nil
+	}
+	return rows, err
+}
+
+// simSQLRows fails after a number of rows.
+type simSQLRows struct {
+	driver.Rows
+	left int
+}
+
+func (r *simSQLRows) Next(dest []driver.Value) error {
+	if r.left == 0 {
+		SQLFaults.RowsFailed.Store(true)
+		return errors.New("simsqlite3: injected failure while reading the result set")
+	}
+	err := r.Rows.Next(dest)
+	if err == nil {
+		r.left--
+	}
+	return err
 }
 func (c *simSQLConn) Ping(ctx context.Context) error { return c.c.Ping(ctx) }
 
